@@ -13,7 +13,7 @@ Proof.
   - cbn [app reinit_msgs]. rewrite Hr. reflexivity.
   - cbn [app reinit_msgs].
     destruct (negb (N.eqb (m_round x) id)); [apply IH|].
-    destruct (String.eqb (m_event x) ev_sgn_start); [reflexivity|].
+    destruct (is_signing_event (m_event x)); [apply IH|].
     destruct (N.eqb (m_recipient x) 0 || N.eqb (m_recipient x) me); [|apply IH].
     destruct (process_message false now h x) as [h' [o|]|h'|]; try apply IH. reflexivity.
 Qed.
@@ -53,4 +53,27 @@ Proof.
   unfold pm_tail, pm_prop, pm_restart.
   cbn [m_round m_event m_data m_req m_sig m_sender m_recipient m_tasks h_st].
   reflexivity.
+Qed.
+
+(* a message of the signing phase - a batch proposal refused by every node while the key generation
+   was under way, say - is likewise without influence, wherever it stands in the file *)
+Lemma reinit_msgs_skips_signing now me id m :
+  is_signing_event (m_event m) = true ->
+  forall l r h ops, reinit_msgs now me id h (l ++ m :: r) ops = reinit_msgs now me id h (l ++ r) ops.
+Proof.
+  intros He l. induction l as [|x l IH]; intros r h ops.
+  - cbn [app reinit_msgs]. rewrite He. destruct (negb (N.eqb (m_round m) id)); reflexivity.
+  - cbn [app reinit_msgs].
+    destruct (negb (N.eqb (m_round x) id)); [apply IH|].
+    destruct (is_signing_event (m_event x)); [apply IH|].
+    destruct (N.eqb (m_recipient x) 0 || N.eqb (m_recipient x) me); [|apply IH].
+    destruct (process_message false now h x) as [h' [o|]|h'|]; try apply IH. reflexivity.
+Qed.
+
+Theorem reinit_ignores_signing_messages now h rd l m r :
+  is_signing_event (m_event m) = true ->
+  reinit_dkg now h (Some (with_msgs rd (l ++ m :: r))) = reinit_dkg now h (Some (with_msgs rd (l ++ r))).
+Proof.
+  intros He. unfold reinit_dkg, with_msgs. cbn [rd_id rd_msgs rd_hash rd_parts].
+  rewrite (reinit_msgs_skips_signing _ _ _ m He). reflexivity.
 Qed.
